@@ -130,10 +130,14 @@ uint32_t vf_uuid_serial_of(uint8_t* s) { if (!s || s[0] != 'u') return (uint32_t
 int64_t vf_cfg[VF_CFG_N][VF_CFG_M];
 void vf_cfg_set(uint32_t which, uint32_t idx, uint64_t val) { VF_CHECK(which < VF_CFG_N && idx < VF_CFG_M, "model: config table bound"); if (which < VF_CFG_N && idx < VF_CFG_M) vf_cfg[which][idx] = (int64_t)val; }
 
+uint64_t vf_cfg_get(uint32_t which, uint32_t idx) { return (which < VF_CFG_N && idx < VF_CFG_M) ? (uint64_t)vf_cfg[which][idx] : 0; }
+
 /* ------------------------------------------------------------------ clock */
 int64_t vf_clock_now = 1000000000LL;   /* > 0: the code uses time_point() (epoch) as a "never" sentinel */
 uint64_t vf_clock_ns(void) { return (uint64_t)vf_clock_now; }
 void vf_clock_advance(uint64_t d) { VF_ASSUME((int64_t)d >= 0 && (int64_t)d < (1LL << 50)); vf_clock_now += (int64_t)d; }
+
+void vf_sleep_ns(uint64_t ns) { if ((int64_t)ns > 0) vf_clock_now += (int64_t)ns; }
 
 /* ------------------------------------------------------------------ native reporting */
 #ifndef __CPROVER__
